@@ -296,3 +296,13 @@ package tree
 //@   ensures[fault-counted] stmtFail == old(stmtFail) + ite(result == nil, 0, 1)
 //@   ensures[roots-from-that-block-on-dropped] result == nil ==> forall(i, int, rootHas(t)[i] == (old(rootHas(t))[i] && rootBlock(t)[i] < firstReorgedBlock))
 //@   ensures[failure-changes-nothing] result != nil ==> rootHas(t) == old(rootHas(t))
+
+// ---- root look-ups by position and by hash (C08, C09, C12): assumed semantics (A5), texts pinned
+//@ func (t *Tree) GetRootByIndex
+//@   props C08 C09 C12
+//@   trusted
+//@   sqltext "SELECT * FROM %s WHERE position = $1;"
+//@ func (t *Tree) GetRootByHash
+//@   props C08 C12
+//@   trusted
+//@   sqltext "SELECT * FROM %s WHERE hash = $1;"
